@@ -205,6 +205,11 @@ class World:
 
 def windows(n, with_empty=True):
     out = [(0, 0)] if with_empty else []
+    if n > 8:
+        # threshold extension (run_jobs): large grids are evaluated on representative windows only - whole grid, one
+        # short at either end, inner, a short one at either end and a point-like one
+        reps = [(0, n), (0, n - 1), (1, n), (1, n - 1), (0, 2), (n - 2, n), (n // 2, n // 2 + 1)]
+        return out + [w_ for i, w_ in enumerate(reps) if w_ not in reps[:i]]
     for s in range(n):
         for e in range(s + 1, n + 1):
             out.append((s, e))
@@ -366,7 +371,8 @@ def _job(args):
                          "an int: a type offering just that narrows larger values silently)"))
             st["n"] += 1
             st["bad"] += 1
-        return ("ok", stats, w.evals, w.I.executed, w.I.scaled)
+        return ("ok", stats, w.evals, w.I.executed, w.I.scaled,
+                {k_: (sorted(v_[0]), v_[1], v_[2]) for k_, v_ in w.I.thresholds.items()})
     except SetupRefused as e:
         f = e.f
         key = (f.pkey, f.pqn, "valid input is never refused") if f is not None else (("?", 0), "?", "valid input")
@@ -457,6 +463,11 @@ RULE_TEXT = {
                  "by an evaluated operation (failing ones included) satisfies the class invariant afterwards",
     "R-REG.unchanged": "R-REG (C14 view): the state of every operand is identical before and after each evaluated "
                        "operation; refused in-place operations leave the target unchanged",
+    "R-REG.kernel": "R-REG (values of the integration / evaluation kernels): Spline::operator()(x), LinearForm{}(a) and "
+                    "ScalarProduct{}(a, b) with b running over unit coefficient vectors, evaluated with opaque coefficients of a "
+                    "and exact rational grid points: the result's affine form must have exactly the specified rational weights "
+                    "((x-xm)^p; 2 h^(p+1)/(p+1) for even p; 2 h^(i+j+1)/(i+j+1) for even i+j) on every combination of degree+1 "
+                    "distinct interval widths; the kernels use ring operations only (no comparison of, no division by data)",
     "R-REG.sys": "R-REG (C12 view): interpolate<T, order, vt::RecSolver<T>> evaluated abstractly for 2..4(5) nodes, every "
                  "combination of order+1 distinct interval widths, the support as a window of a larger grid, the default and "
                  "(sampled) every admissible boundary set: the recorded augmented matrix [M | b] has the same reduced row "
@@ -477,7 +488,7 @@ RULE_TEXT = {
 }
 
 
-def run_jobs(chk, unit, rule, jobs, procs=None, view=None):
+def run_jobs(chk, unit, rule, jobs, procs=None, view=None, _extension=False):
     """jobs: list of (module name, suite function name, kwargs).  Returns number of regions evaluated."""
     import multiprocessing as mp
     import os
@@ -501,6 +512,40 @@ def run_jobs(chk, unit, rule, jobs, procs=None, view=None):
         if len(r) > 4 and r[4]:
             cur = set(chk.notes.get("index_arithmetic_outside_order_type_fragment", []))
             chk.notes["index_arithmetic_outside_order_type_fragment"] = sorted(cur | set(r[4]))
+    # the small-model argument: index code only compares its integer inputs with each other and with small constants.
+    # A comparison of a run-time integer with a constant beyond the evaluated sizes must have been seen going BOTH ways,
+    # otherwise the regions up to the size bound do not cover the code behind it (honest answer: not analysed)
+    th = {}
+    for r in res:
+        if len(r) > 5:
+            for site, (outs, k_, pqn) in r[5].items():
+                t = th.setdefault(site, [set(), k_, pqn])
+                t[0] |= set(outs)
+    one = [(site, t) for site, t in sorted(th.items()) if len(t[0]) < 2]
+    if one and not _extension:
+        # extend the size bound past the threshold (sparse windows) for the suites of this call and merge
+        ks = sorted({t[1] for _, t in one if t[1] <= 40})
+        if ks:
+            ext, seen = [], set()
+            for (mod, fn, kw) in jobs:
+                if "ns" not in kw:
+                    continue
+                base = {k_: v_ for k_, v_ in kw.items() if k_ not in ("ns",)}
+                key = (mod, fn, repr(sorted(base.items(), key=lambda kv: kv[0])))
+                if key in seen:
+                    continue
+                seen.add(key)
+                for k_ in ks:
+                    ext.append((mod, fn, dict(base, ns=[k_ + 1, k_ + 2])))
+            if ext:
+                chk.notes["size_bound_extended_past_threshold"] = sorted(set(chk.notes.get(
+                    "size_bound_extended_past_threshold", []) + ks))
+                return run_jobs(chk, unit, rule, list(jobs) + ext, procs=procs, view=view, _extension=True)
+    if one:
+        site, t = one[0]
+        raise AnalysisBroken("%s:%s in %s compares a run-time integer with the constant %d and went only one way on every "
+                             "evaluated region: the size bound of the region evaluation does not cover the code behind this "
+                             "threshold" % (C.rel(site[0][0]), site[1], t[2], t[1]))
     chk.notes["abstract_calls"] = chk.notes.get("abstract_calls", 0) + evals
     if view is not None:
         stats = view(stats)
